@@ -688,4 +688,134 @@ example : (sampleSORSparse 4 3 (fun _ _ => [(1, 1/4), (3, 3/4)]) (fun _ _ => [(0
     0 0 (1/2) (3/4) 1 1 (by simp) (by simp) (by simp) (by norm_num) (by norm_num) (by simp) (by norm_num)
     (by norm_num) (by norm_num) (by norm_num) (by norm_num) (by norm_num)).mpr (by norm_num [cum])
 
+/-! ## V: end-to-end statements with the acceptance tolerance of `isProbability` -/
+
+theorem mo_vose_fixed_ne_nil (p : List Rat) (avg : Rat) (hne : p ≠ []) : (voseBuildFixed p avg).1 ≠ [] := by
+  intro h
+  have hl1 := (vose_fixed_lengths p avg).1
+  rw [h] at hl1
+  exact hne (List.length_eq_zero_iff.mp hl1.symm)
+
+/-- **V1** repaired constructor + table sampler never leave the range, for EVERY `p` and `avg`
+    (no validity assumption) -/
+theorem vose_sampler_in_range (p : List Rat) (avg u : Rat) (hne : p ≠ []) (hu0 : 0 ≤ u) (hu1 : u < 1) :
+    aliasSample (voseBuildFixed p avg).1 (voseBuildFixed p avg).2 u < p.length := by
+  obtain ⟨hl1, hl2⟩ := vose_fixed_lengths p avg
+  have h := aliasSample_in_range (voseBuildFixed p avg).1 (voseBuildFixed p avg).2 u (hl2.trans hl1.symm)
+    (fun a ha => by rw [hl1]; exact vose_fixed_alias_in_range p avg a ha) hu0 hu1
+    (mo_vose_fixed_ne_nil p avg hne)
+  rwa [hl1] at h
+
+/-- test (V1): an invalid vector and an arbitrary `avg` -/
+example : aliasSample (voseBuildFixed [3, -1, 1/2] 7).1 (voseBuildFixed [3, -1, 1/2] 7).2 (9/10) < 3 :=
+  vose_sampler_in_range [3, -1, 1/2] 7 (9/10) (by simp) (by norm_num) (by norm_num)
+
+/-- **V2** any vector accepted by `isProbability`, exact `avg = 1/n` -/
+theorem vose_selects_valid (p : List Rat) (hne : p ≠ []) (hp : isProb p = true) (j : Nat) (hj : j < p.length) :
+    ∃ q, SelectsWithProb (aliasSample (voseBuildFixed p (1 / (p.length : Rat))).1
+        (voseBuildFixed p (1 / (p.length : Rat))).2) j q ∧
+      absQ (q - p.getD j 0) ≤ AITB.Gen.equalToleranceSmall := by
+  obtain ⟨hl1, hl2⟩ := vose_fixed_lengths p (1 / (p.length : Rat))
+  obtain ⟨c, ht⟩ := alias_cert _ _ j (hl2.trans hl1.symm) (mo_vose_fixed_ne_nil p _ hne)
+  exact ⟨_, ⟨_, c, ht⟩, vose_correct_valid p hne hp j hj⟩
+
+/-- **V3** the table the C++ code really builds (`avg = 1.0/n` in double, within 2^-53 of `1/n`) -/
+theorem vose_selects_double_avg (p : List Rat) (avg : Rat) (hne : p ≠ []) (hp : isProb p = true)
+    (havg : absQ (avg - 1 / (p.length : Rat)) ≤ 1 / 2 ^ 53) (j : Nat) (hj : j < p.length) :
+    ∃ q, SelectsWithProb (aliasSample (voseBuildFixed p avg).1 (voseBuildFixed p avg).2) j q ∧
+      absQ (q - p.getD j 0) ≤ AITB.Gen.equalToleranceSmall + ((2 * p.length + 1 : Nat) : Rat) / 2 ^ 53 := by
+  obtain ⟨hl1, hl2⟩ := vose_fixed_lengths p avg
+  obtain ⟨c, ht⟩ := alias_cert _ _ j (hl2.trans hl1.symm) (mo_vose_fixed_ne_nil p _ hne)
+  exact ⟨_, ⟨_, c, ht⟩, vose_correct_double_avg p avg hne hp havg j hj⟩
+
+/-- **V4** -/
+theorem sampleSRSparse_selects_valid (S : Nat) (T : Nat → Nat → List (Nat × Rat)) (R : Nat → Nat → Rat)
+    (s a : Nat) (hs : (T a s).Pairwise (fun p q => p.1 < q.1)) (hnn : ∀ e ∈ T a s, 0 ≤ e.2)
+    (hp : isProb ((T a s).map (·.2)) = true) (hne : T a s ≠ []) (k : Nat) (hk : k < (T a s).length) :
+    ∃ q, SelectsWithProb (fun u => (sampleSRSparse S T R s a u).1) ((T a s)[k]).1 q ∧
+      absQ (q - ((T a s)[k]).2) ≤ AITB.Gen.equalToleranceSmall :=
+  sparseFixed_selects_valid S (T a s) hs hnn hp hne k hk
+
+/-- **V5** -/
+theorem coopSampleS_factor_selects_valid (S A : List Nat) (parents : List ParentSet)
+    (T : List (List (List Rat))) (s a : List Nat) (pre post : List Rat) (k : Nat)
+    (h1 : parents.length = T.length) (h2 : T.length = pre.length + 1 + post.length)
+    (hp : isProb (mo_coopRow S A parents T s a pre.length) = true)
+    (hk : k < (mo_coopRow S A parents T s a pre.length).length) :
+    ∃ q, SelectsWithProb
+        (fun u => (coopSampleS S A parents T s a (pre ++ u :: post)).getD pre.length 0) k q ∧
+      absQ (q - (mo_coopRow S A parents T s a pre.length).getD k 0) ≤ AITB.Gen.equalToleranceSmall := by
+  obtain ⟨q, ⟨ivs, c, ht⟩, hq⟩ := dense_selects_valid _ k hp hk
+  refine ⟨q, ⟨ivs, ms_cert_congr _ _ _ _ _ ?_ c, ht⟩, hq⟩
+  intro u _ _
+  have hlen : T.length = (pre ++ u :: post).length := by simp; omega
+  have e := coopSampleS_getD S A parents T s a (pre ++ u :: post) h1 hlen pre.length (by simp)
+  have eu : (pre ++ u :: post).getD pre.length 0 = u := by simp [List.getD_eq_getElem?_getD]
+  rw [eu] at e
+  show (coopSampleS S A parents T s a (pre ++ u :: post)).getD pre.length 0 = k ↔ _
+  rw [e]; rfl
+
+/-- **V6** dense POMDP model -/
+theorem sampleSOR_obs_selects_valid (T O : Nat → Nat → List Rat) (R : Nat → Nat → Rat) (s a o : Nat)
+    (u1 : Rat) (hp : isProb (O a (sampleDense (T a s) u1)) = true)
+    (ho : o < (O a (sampleDense (T a s) u1)).length) :
+    ∃ q, SelectsWithProb (fun u2 => (sampleSOR T O R s a u1 u2).2.1) o q ∧
+      absQ (q - (O a (sampleDense (T a s) u1)).getD o 0) ≤ AITB.Gen.equalToleranceSmall := by
+  obtain ⟨q, ⟨ivs, c, ht⟩, hq⟩ := dense_selects_valid (O a (sampleDense (T a s) u1)) o hp ho
+  exact ⟨q, ⟨ivs, ms_cert_congr _ _ _ _ _ (fun _ _ _ => Iff.rfl) c, ht⟩, hq⟩
+
+/-- **V6** stored-row POMDP model -/
+theorem sampleSORSparse_obs_selects_valid (S O : Nat) (T Ob : Nat → Nat → List (Nat × Rat))
+    (R : Nat → Nat → Rat) (s a : Nat) (u1 : Rat)
+    (hs : (Ob a (sampleSparseFixed S (T a s) u1)).Pairwise (fun p q => p.1 < q.1))
+    (hnn : ∀ e ∈ Ob a (sampleSparseFixed S (T a s) u1), 0 ≤ e.2)
+    (hp : isProb ((Ob a (sampleSparseFixed S (T a s) u1)).map (·.2)) = true)
+    (k : Nat) (hk : k < (Ob a (sampleSparseFixed S (T a s) u1)).length) :
+    ∃ q, SelectsWithProb (fun u2 => (sampleSORSparse S O T Ob R s a u1 u2).2.1)
+        ((Ob a (sampleSparseFixed S (T a s) u1))[k]).1 q ∧
+      absQ (q - ((Ob a (sampleSparseFixed S (T a s) u1))[k]).2) ≤ AITB.Gen.equalToleranceSmall :=
+  sparseFixed_selects_valid O (Ob a (sampleSparseFixed S (T a s) u1)) hs hnn hp (mo_ne_nil_of_lt _ k hk) k hk
+
+/-- **V6'** `sampleORSparse`, tolerance version -/
+theorem sampleORSparse_selects_valid (O : Nat) (Ob : Nat → Nat → List (Nat × Rat)) (R : Nat → Nat → Rat)
+    (s a s1 : Nat) (hs : (Ob a s1).Pairwise (fun p q => p.1 < q.1)) (hnn : ∀ e ∈ Ob a s1, 0 ≤ e.2)
+    (hp : isProb ((Ob a s1).map (·.2)) = true) (k : Nat) (hk : k < (Ob a s1).length) :
+    ∃ q, SelectsWithProb (fun u => (sampleORSparse O Ob R s a s1 u).1) ((Ob a s1)[k]).1 q ∧
+      absQ (q - ((Ob a s1)[k]).2) ≤ AITB.Gen.equalToleranceSmall :=
+  sparseFixed_selects_valid O (Ob a s1) hs hnn hp (mo_ne_nil_of_lt _ k hk) k hk
+
+/-- **V7** for positive draws whose sum exceeds `1 + tol`, the (repaired) projection is the Dirichlet
+    normalisation: `projectToProbability` takes its "normalize" branch and divides by the sum -/
+theorem dirichlet_as_projection (gs : List Rat) (hpos : ∀ g ∈ gs, 0 < g)
+    (hs : 1 + AITB.Gen.equalToleranceSmall < gs.sum) : projectFixed gs = dirichletFromGammas gs := by
+  have hP : posSum gs = gs.sum := posSum_eq_sum_of_nonneg gs (fun x hx => le_of_lt (hpos x hx))
+  have ht := tol_pos
+  have e1 : eqSmall gs.sum 1 = false := (eqSmall_false_iff _ _).mpr (Or.inl (by linarith))
+  have e0 : eqSmall gs.sum 0 = false := (eqSmall_false_iff _ _).mpr (Or.inl (by linarith))
+  have hgt : gs.sum > 1 := by linarith
+  unfold projectFixed dirichletFromGammas
+  simp only [hP, e1, e0, hgt, if_true, Bool.false_eq_true, if_false]
+  apply List.map_congr_left
+  intro x hx
+  rw [mask_of_nonneg (le_of_lt (hpos x hx)), one_mul]
+
+/-- … and likewise for the projection as it is (the two agree off the tolerance branches) -/
+theorem dirichlet_as_projection_current (gs : List Rat) (hpos : ∀ g ∈ gs, 0 < g)
+    (hs : 1 + AITB.Gen.equalToleranceSmall < gs.sum) : project gs = dirichletFromGammas gs := by
+  have hP : posSum gs = gs.sum := posSum_eq_sum_of_nonneg gs (fun x hx => le_of_lt (hpos x hx))
+  have ht := tol_pos
+  have e1 : eqSmall gs.sum 1 = false := (eqSmall_false_iff _ _).mpr (Or.inl (by linarith))
+  have e0 : eqSmall gs.sum 0 = false := (eqSmall_false_iff _ _).mpr (Or.inl (by linarith))
+  have hgt : gs.sum > 1 := by linarith
+  unfold project dirichletFromGammas
+  simp only [hP, e1, e0, hgt, if_true, Bool.false_eq_true, if_false]
+  apply List.map_congr_left
+  intro x hx
+  rw [mask_of_nonneg (le_of_lt (hpos x hx)), one_mul]
+
+/-- test (V7) -/
+example : projectFixed [1, 2, 1] = [1/4, 1/2, 1/4] := by
+  rw [dirichlet_as_projection [1, 2, 1] (by norm_num) (by norm_num [Gen.equalToleranceSmall])]
+  norm_num [dirichletFromGammas]
+
 end AITB.Sampling
